@@ -5,34 +5,9 @@ use crate::store::private::StoreCallbacks;
 use crate::types::kani_verif::common::{fmt_stub, rs_new};
 
 /// oracle: row k of the index = data handles d (ascending) with keys_of[d] == k, minus `without`
-/// the change flag (an Arc<RwLock<bool>> consulted only by serialisation) is not a subject of C01
-pub(crate) trait MarkStub { fn mark_changed_stub(&self) {} }
-impl<T> MarkStub for T {}
-
-pub(crate) fn want_row(keys_of: &[u32; 3], k: usize, without: Option<usize>) -> (usize, u32, u32, u32, u32) {
-    let mut r = [99u32; 4];
-    let mut n = 0;
-    let mut d = 0;
-    while d < 3 {
-        if keys_of[d] as usize == k && Some(d) != without { r[n] = d as u32; n += 1; }
-        d += 1;
-    }
-    (n, r[0], r[1], r[2], r[3])
-}
-
 // the assignment of data items to keys (the shape of the index) and the removed handle are concrete per harness
 // (a symbolic handle after which all rows are read back exhausts the back end); the handles listed in the index
 // are symbolic. Oracle: rows of the other keys are exactly what they were.
-pub(crate) fn want_row_with(keys_of: &[u32; 3], listed: &[u32; 3], k: usize) -> (usize, u32, u32, u32, u32) {
-    let mut r = [99u32; 4];
-    let mut n = 0;
-    let mut d = 0;
-    while d < 3 {
-        if keys_of[d] as usize == k { r[n] = listed[d]; n += 1; }
-        d += 1;
-    }
-    (n, r[0], r[1], r[2], r[3])
-}
 macro_rules! key_preremove {
     ($name:ident, $keys:expr, $k:expr) => {
         #[kani::proof]
@@ -75,3 +50,33 @@ key_preremove!(c01_keydata_key_preremove_s210_k1, [2, 1, 0], 1);
 // NOT decided here: StoreCallbacks<AnnotationData>::{inserted,preremove} on this dataset shape. Both are one-line
 // wrappers around RelationMap::{insert,remove} (decided in store/c01.rs), but on a full AnnotationDataSet value
 // the back end runs out of memory (> 24 GB in propositional reduction); see DESIGN.md.
+
+// concrete witnesses (NO symbolic input): removing ONE data item leaves its siblings under the same key listed
+macro_rules! data_preremove_witness {
+    ($name:ident, $keys:expr, $d:expr) => {
+        #[kani::proof]
+        #[kani::unwind(6)]
+        #[kani::stub(std::hash::RandomState::new, rs_new)]
+        #[kani::stub(alloc::fmt::format, fmt_stub)]
+        #[kani::stub(ChangeMarker::mark_changed, MarkStub::mark_changed_stub)]
+        fn $name() {
+            let keys_of: [u32; 3] = $keys;
+            let mut s = mk_set(&keys_of);
+            let r = <AnnotationDataSet as StoreCallbacks<AnnotationData>>::preremove(&mut s, AnnotationDataHandle::new($d));
+            assert!(r.is_ok(), "removing an existing data item succeeds");
+            let mut k = 0;
+            while k < 3 {
+                // only the row lengths are read back (reading the entries after the Vec::remove exhausts the back end)
+                let want = want_row(&keys_of, k, Some($d)).0;
+                let got = krow(&s, k).0;
+                assert!(got == want || (want == 0 && got == usize::MAX), "each key lists as many items as still carry it");
+                k += 1;
+            }
+            kani::cover!(true, "reached");
+            core::mem::forget(r);
+            core::mem::forget(s);
+        }
+    };
+}
+data_preremove_witness!(c01_witness_data_preremove_sibling, [0, 0, 1], 0);
+data_preremove_witness!(c01_witness_data_preremove_last, [1, 2, 2], 2);
